@@ -166,6 +166,22 @@ func (p *Program) Reaches(modulePath, pkgPath, root string, forbidden, through [
 		}
 		for _, b := range fn.Blocks {
 			for _, ins := range b.Instrs {
+				switch x := ins.(type) {
+				case *ssa.Go:
+					if forb["go statement"] {
+						if _, ok := out["go statement"]; !ok {
+							out["go statement"] = fn.String()
+						}
+					}
+					visit(x.Common().StaticCallee())
+					continue
+				case *ssa.MakeChan:
+					if forb["make(chan)"] {
+						if _, ok := out["make(chan)"]; !ok {
+							out["make(chan)"] = fn.String()
+						}
+					}
+				}
 				if c, ok := ins.(ssa.CallInstruction); ok {
 					visit(c.Common().StaticCallee())
 				}
